@@ -449,3 +449,34 @@ _units_uf = units
 
 def units(tier):   # noqa: F811
     return _units_uf(tier) + whole_units(tier)
+
+
+def init_units():
+    """Persistence_on_rectangle::init: the grid geometry every other contract assumes (size_x == dy - 1, ...), and
+    the three arrays hold exactly one slot per vertex / square of the reduced complex"""
+    G = ("typedef size_t Index; typedef int Filtration_value;\nconst Filtration_value* input_p; Index size_x, size_y, input_size, dy;\n"
+         "Index g_alloc_dv, g_alloc_pv, g_alloc_ps;\nsize_t nondet_size(void);\n")
+    con = """
+__CPROVER_requires(n_rows >= 2 && n_cols >= 2 && n_rows <= 65536 && n_cols <= 65536)
+__CPROVER_ensures(dy == n_cols && size_x == n_cols - 1 && size_y == n_rows - 1 && input_p == input_)
+__CPROVER_ensures(input_size == n_rows * n_cols)
+__CPROVER_ensures(g_alloc_dv == g_alloc_pv && g_alloc_ps == input_size)
+__CPROVER_ensures(g_alloc_dv == (size_x - 1) + dy * (size_y - 1) + 1)
+__CPROVER_assigns(input_p, size_x, size_y, input_size, dy, g_alloc_dv, g_alloc_pv, g_alloc_ps)
+"""
+    fn = Fn(R, r"void init\(const Filtration_value\* input_, Index n_rows, Index n_cols\)", "init", con,
+            subs=[(r"data_v_\.reset\(new T\[([^\]]*)\]\);", r"g_alloc_dv = \1;"), (r"ds_parent_v_\.reset\(new Index\[([^\]]*)\]\);", r"g_alloc_pv = \1;"),
+                  (r"ds_parent_s_\.resize\(([^;]*)\);", r"g_alloc_ps = \1;"), (r"edges\.reserve\([^;]*\);", "", 0)],
+            canary=(r"size_y = n_rows - 1;", "size_y = n_rows;"))
+    return [Unit("rect.init", "C14", [fn], enforce="init", globals_=G, inputs=["in_r", "in_c"],
+                 harness=H("  Index in_r = nondet_size(), in_c = nondet_size(); Filtration_value buf[4];", "init(buf, in_r, in_c);"),
+                 runs=[Run(only=["*.postcondition.2", "*.postcondition.4"], backend="z3", timeout=120, label="products"),
+                       Run(exclude=["*.postcondition.2", "*.postcondition.4"], backend="sat", timeout=120, label="rest")],
+                 desc="init: dy = n_cols, size_x = n_cols - 1, size_y = n_rows - 1, input_size = n_rows * n_cols; the vertex arrays get exactly one slot per vertex of the reduced complex (largest vertex index + 1), the square array one per input cell")]
+
+
+_units_whole = units
+
+
+def units(tier):   # noqa: F811
+    return _units_whole(tier) + init_units()
